@@ -762,6 +762,9 @@ def run_c15(res, rng):
         fr = sw[j:j + 200]
         c = Case('sweep%d' % j, [D.feed_line(1, f) for f in fr], dict(frames=fr, exp=[]))
         cases.append(c)
+    ct = D.tecmp_consistent_truncations(rng.fork('ctrunc'))
+    for j in range(0, len(ct), 60):
+        cases.append(Case('sweepct%d' % j, [D.feed_line(1, f) for f in ct[j:j + 60]], dict(frames=ct[j:j + 60], exp=[])))
     cases += [c15_siblings(rng.fork('sib%d' % i), 'sib%d' % i) for i in range(400 if res.tier == 'quick' else 20000)]
     # what the all-static TECMP decoder returned when it was called during static initialisation of the process (harness probe)
     cases.append(Case('sinit', ['SINIT'], dict(frames=[], exp=[])))
@@ -782,7 +785,7 @@ def run_c15(res, rng):
             return None
         return judge_c15(c, lines)
     correspondence(res, cases, (lambda c, l: [x if x.startswith('K ') else 'N ' + x.split()[1] for x in l if x.startswith(('N ', 'K '))] + anomalies(l)), judge, 'TECMP conversion')
-    res.cov['rule'] = 'TECMP frames from the table serialiser: CAN (dlc 0-8), CAN-FD (dlc 9-64), LIN (0-20 bytes), capture-module status (random serial / versions), bus status (0-40 entries), unsupported message/data types, inner lengths that do not fit, announced payload longer than the buffer, trailing bytes; sequences of 3-5 messages decoded back to back that differ from each other in one field (same serial / other hardware version, one counter, one data byte); the decoder called during static initialisation of the process (before main) on three canned frames; plus a sweep of all 256 message types x 17 (quick) / 303 (thorough) data types; judge = Python conversion spec. non-trivial = distinct frames of supported kinds'
+    res.cov['rule'] = 'TECMP frames from the table serialiser: CAN (dlc 0-8), CAN-FD (dlc 9-64), LIN (0-20 bytes), capture-module status (random serial / versions), bus status (0-40 entries), unsupported message/data types, inner lengths that do not fit, announced payload longer than the buffer, trailing bytes; sequences of 3-5 messages decoded back to back that differ from each other in one field (same serial / other hardware version, one counter, one data byte); the decoder called during static initialisation of the process (before main) on three canned frames; plus a sweep of all 256 message types x 17 (quick) / 303 (thorough) data types; status messages cut at every length below their fixed part with the inner vendor-data-length word rewritten to be consistent with the bytes present; judge = Python conversion spec. non-trivial = distinct frames of supported kinds'
     res.cov['distinct_nontrivial'] = len(set(tuple(c.lines) for c in cases if c.meta.get('exp')))
     res.cov['samples'] = [sample_case(c) for c in cases[:3]]
 
@@ -855,6 +858,53 @@ def gen_c16(rng, cid, nops, devs=(1, 2, 3), ifs=(10, 20, 30)):
             lines.append('SCLR'); spec = {}
         lines.append('SSHOW ' + ' '.join(map(str, probes)))
         exp.append({dd: (knums(v[0]), {ii: knums(pp) for ii, pp in v[1].items()}) for dd, v in spec.items()})
+    return Case(cid, lines, dict(exp=exp, probes=probes))
+
+def gen_c16_copy(rng, cid):
+    """a populated tracker is copied; the COPY then receives, device by device, first a new message for the interface that device saw
+    last before the copy, then for the others; afterwards the original is shown again: it must still hold what it held at the copy,
+    the copy must hold the new messages (two trackers are two objects)"""
+    import copy as _copy
+    lines, exp, spec, slot = [], [], {}, 0
+    devs = [rng.below(65536) for _ in range(rng.range(1, 3))]
+    devs = list(dict.fromkeys(devs))
+    ifs = {d: list(dict.fromkeys(rng.below(1 << 32) for _ in range(rng.range(1, 4)))) for d in devs}
+    probes = devs + [i for d in devs for i in ifs[d]] + [99]
+    def show(sp):
+        lines.append('SSHOW ' + ' '.join(map(str, probes)))
+        exp.append({dd: (knums(v[0]), {ii: knums(pp) for ii, pp in v[1].items()}) for dd, v in sp.items()})
+    def upd(sp, kind, d, i):
+        nonlocal slot
+        p = st_packet(rng, kind, d, i)
+        lines.append(pk_line(slot, p)); lines.append('SUPD %d' % slot); slot += 1
+        if d in sp:
+            if kind == 'cm': sp[d][0] = p
+            else: sp[d][1][i] = p
+        elif kind == 'cm':
+            sp[d] = [p, {}]
+    last = {}
+    for d in devs:
+        upd(spec, 'cm', d, 0)
+        for i in ifs[d]:
+            upd(spec, 'if', d, i); last[d] = i
+    for _ in range(rng.below(4)):
+        d = rng.choice(devs); i = rng.choice(ifs[d]); upd(spec, 'if', d, i); last[d] = i
+    show(spec)
+    lines.append('SCOPY'); orig = _copy.deepcopy(spec); cp = _copy.deepcopy(spec)
+    lines.append('SOTHER')
+    show(cp)
+    for d in devs:
+        order = [last[d]] + [i for i in ifs[d] if i != last[d]]
+        if rng.chance(1, 3):
+            upd(cp, 'cm', d, 0); show(cp)
+        for i in order:
+            upd(cp, 'if', d, i); show(cp)
+    lines.append('SOTHER')
+    show(orig)
+    for d in devs:
+        upd(orig, 'if', d, last[d]); show(orig)
+    lines.append('SOTHER')
+    show(cp)
     return Case(cid, lines, dict(exp=exp, probes=probes))
 
 def gen_c16_wide(rng, cid, n, level):
@@ -968,9 +1018,11 @@ def run_c16(res, rng):
            [(70, 'if'), (70, 'dev'), (140, 'if'), (140, 'dev'), (270, 'if'), (270, 'dev'), (520, 'if'), (520, 'dev'), (1100, 'if')]
     for j, (n_ids, level) in enumerate(wide):
         cases.append(gen_c16_wide(rng.fork('w%d' % j), 'w%d' % j, n_ids, level))
+    for j in range(60 if res.tier == 'quick' else 3000):
+        cases.append(gen_c16_copy(rng.fork('cp%d' % j), 'cp%d' % j))
     def proj(c, lines):
         return [l for l in lines if l.startswith('S')] + anomalies(lines)
     correspondence(res, cases, proj, judge_c16, 'status tracker = latest-message map')
-    res.cov['rule'] = 'sequences of 1-25 operations over 3 devices x 3 interfaces from {update(cm status | interface status | data packet), removeDeviceById, removeInterfaceById, clear}, each followed by a full snapshot (entries in vector order, all lookups for 7 probe ids); plus wide-id cases: 40-100 (thorough: up to 1100) interface ids under one device / device ids (random, sequential, shifted, multiplicative families - more ids than a small hidden table has slots), all announced, half removed, every remaining id updated and looked up again; judge = Python dict-of-dicts latest-message map compared as a map, lookups against the snapshot order. non-trivial = distinct sequences with >= 3 operations'
+    res.cov['rule'] = 'sequences of 1-25 operations over 3 devices x 3 interfaces from {update(cm status | interface status | data packet), removeDeviceById, removeInterfaceById, clear}, each followed by a full snapshot (entries in vector order, all lookups for 7 probe ids); plus copy cases (a populated tracker is copied, the copy is fed - first the interface each device saw last -, then the original is shown and fed again); plus wide-id cases: 40-100 (thorough: up to 1100) interface ids under one device / device ids (random, sequential, shifted, multiplicative families - more ids than a small hidden table has slots), all announced, half removed, every remaining id updated and looked up again; judge = Python dict-of-dicts latest-message map compared as a map, lookups against the snapshot order. non-trivial = distinct sequences with >= 3 operations'
     res.cov['distinct_nontrivial'] = len(set(tuple(c.lines) for c in cases if len(c.meta.get('exp', [])) >= 3))
     res.cov['samples'] = [sample_case(c, 8) for c in cases[:2]]
